@@ -455,9 +455,9 @@ class G:
         if k == 18:
             return {"k": "forever", "body": self.loop_body(depth)}
         if k == 19:
-            return {"k": "while", "not": self.b(), "cond": self.cond(), "body": self.loop_body(depth)}
+            return {"k": "while", "not": self.b(), "cond": self.loop_cond(), "body": self.loop_body(depth)}
         if k == 20:
-            return {"k": "for", "init": self.for_slot(), "cond": self.cond(), "inc": self.for_slot(),
+            return {"k": "for", "init": self.for_slot(), "cond": self.loop_cond(), "inc": self.for_slot(),
                     "body": self.loop_body(depth)}
         if k < 24:
             c = self.lone_control(in_loop, in_case)
@@ -483,8 +483,20 @@ class G:
 
     def loop_body(self, depth):
         body = self.block(depth + 1, True, False, 0, 3)
+        if self.macro_names and self.b(1, 4):
+            # anchor shape: the loop body ends in a macro call (what follows the expansion is the loop's own check / increment)
+            body.append(self.macro_call())
         # every loop body starts with an op: no op-free cycle through the loop
         return [self.op()] + body
+
+    def loop_cond(self):
+        """loop conditions are emitted out of source order (behind the body): the operation form is weighted up there"""
+        if self.b(1, 4):
+            while True:
+                c = self.cond()
+                if c["c"] == "opn":
+                    return c
+        return self.cond()
 
     def macro_call(self, prefer=None):
         cands = [m for m in (prefer or ()) if m in self.macro_names]
